@@ -7,7 +7,7 @@ From Flipdot Require Import Base Hex Frame Message SignType Page VSign Controlle
 
 Extraction Language OCaml.
 Extraction "model.ml"
-  nlen data_try_new encode encode_nl decode checksum payload
+  nlen data_try_new data_try_new_len encode encode_nl decode checksum payload
   msg_of_frame frame_of_msg msg_eqb wf_msgb wf_frameb
   all_sign_types dimensions st_to_bytes st_from_bytes
   page_new page_from_bytes page_eqb page_id get_pixel set_pixel set_all_pixels wf_pageb total_bytes data_bytes bpc
